@@ -87,14 +87,61 @@ def bare_vs_one_channel(rng):
     X = np.array(rows, dtype=float)
     import artlib
     bare = B.make_est(k)
-    fus = artlib.FusionART([B.make_est(k)], [1.0], [X.shape[1]])
+    # "any gamma vector": a list, an integer, an array of any float width
+    gform = rng.choice(["list", "list", "int", "f64", "f32", "f16"])
+    gam = {"list": [1.0], "int": [1], "f64": np.array([1.0]), "f32": np.array([1.0], dtype=np.float32), "f16": np.array([1.0], dtype=np.float16)}[gform]
+    if gform in ("f32", "f16") and kind == "Fuzzy":
+        # near-tie activations (tiny choice parameter, continuous data) are where a narrower product shows
+        k = dict(k); k["alpha"] = 1e-7
+        bare = B.make_est(k)
+        X = np.array([[rng.random() for _ in range(X.shape[1] // 2)] for _ in range(20)])
+        X = np.hstack([X, 1.0 - X])
+    fus = artlib.FusionART([B.make_est(k)], gam, [X.shape[1]])
     mode, eps = B.gen_mode(rng)
     bare.fit(X, match_tracking=mode, epsilon=float(eps))
     fus.fit(X, match_tracking=mode, epsilon=float(eps))
     ok = list(bare.labels_) == list(fus.labels_) and len(bare.W) == len(fus.W) and all(np.array_equal(a, b) for a, b in zip(bare.W, fus.W))
     if not ok:
         return {"signature": "FusionART/one-channel-bare", "text": "one-channel FusionART with gamma=1 differs from the bare module",
-                "replay": {"kernel": {kk: str(vv) for kk, vv in k.items()}, "X": X.tolist(), "mode": mode, "eps": str(eps)}}
+                "replay": {"kernel": {kk: str(vv) for kk, vv in k.items()}, "X": X.tolist(), "mode": mode, "eps": str(eps), "gamma_given_as": gform}}
+    return None
+
+
+def fused_weight_assigned_back(rng):
+    """'the fused weight is the concatenation of the channel weights' through the public W attribute in both directions:
+    assigning a trained model's own fused weights back (what prune / shrink-style callers do) leaves every channel's
+    weights, the category counts and the predictions as they were"""
+    import artlib
+    kinds = [rng.choice(["Fuzzy", "Hyper", "ART1", "Gauss"]) for _ in range(rng.choice([2, 3]))]
+    d = 2
+    mods, cols = [], []
+    n = rng.randrange(6, 14)
+    for kd in kinds:
+        p = K.gen_params(rng, kd, d)
+        if kd == "ART1" and p["L"] == 1.0:
+            p["L"] = 2.0
+        if kd in ("Fuzzy", "Hyper") and p["alpha"] == 0.0:
+            p["alpha"] = 1e-3
+        mods.append(K.make(kd, p)); cols.append(K.gen_data(rng, kd, n, d))
+    g = {2: [0.5, 0.5], 3: [0.5, 0.25, 0.25]}[len(kinds)]
+    X = np.hstack(cols)
+    rep = {"modules": kinds, "X": X.tolist(), "gammas": g, "channel_dims": [c.shape[1] for c in cols], "how": "fit(X); est.W = est.W"}
+    try:
+        est = artlib.FusionART(mods, g, [c.shape[1] for c in cols])
+        with np.errstate(all="ignore"), C.time_limit(10):
+            est.fit(X)
+            before = [[np.array(w, dtype=float).copy() for w in m.W] for m in est.modules]
+            pred = [int(v) for v in est.predict(X)]
+            est.W = est.W
+            after = [[np.array(w, dtype=float) for w in m.W] for m in est.modules]
+            same = all(len(a) == len(b) and all(x.shape == y.shape and np.array_equal(x, y) for x, y in zip(a, b)) for a, b in zip(before, after))
+            if not same:
+                return {"signature": "FusionART/fused-weight-assignment", "text": "after est.W = est.W the channel modules hold "
+                        f"{[len(a) for a in after]} weights of lengths {[len(a[0]) if a else 0 for a in after]} (before: {[len(b) for b in before]} of lengths {[len(b[0]) for b in before]})", "replay": rep}
+            if [int(v) for v in est.predict(X)] != pred:
+                return {"signature": "FusionART/fused-weight-assignment", "text": "predictions changed after est.W = est.W", "replay": rep}
+    except Exception as e:
+        return {"signature": "FusionART/fused-weight-assignment", "text": f"{type(e).__name__}: {str(e)[:80]}", "replay": rep}
     return None
 
 
@@ -247,7 +294,7 @@ def main():
         stats["with_veto"] += 1 if ops[0].get("veto") else 0
         fails.extend(oracle(f, ops))
     for _ in range(60 if tier == "quick" else 600):
-        for g in (bare_vs_one_channel, supervised_one_channel, permutation, long_weight, dtype_variants):
+        for g in (bare_vs_one_channel, supervised_one_channel, permutation, long_weight, dtype_variants, fused_weight_assigned_back):
             r = g(rng)
             if r:
                 fails.append(r)
